@@ -929,7 +929,16 @@ class Interp:
 
     def apply(self, f, args, kwargs, path, node, awaited=False):
         lineno = getattr(node, "lineno", 0)
+        # f(*tuple(xs)) / f(*list(xs)) passes the elements of xs
+        args = tuple(("star", a[1][2][0]) if a[0] == "star" and a[1][0] == "call" and a[1][1] in (("glob", "ext:builtins.tuple"), ("glob", "ext:builtins.list")) and len(a[1][2]) == 1 and not a[1][3] else a for a in args)
+        kwargs = tuple((k_, v_[2][0]) if k_ is None and v_[0] == "call" and v_[1] == ("glob", "ext:builtins.dict") and len(v_[2]) == 1 and not v_[3] and self.type_of(v_[2][0], path) is dict else (k_, v_) for k_, v_ in kwargs)
         args, kwargs = self.flatten_args(args, kwargs)
+        # tuple(x) of a value that certainly is a tuple is x itself
+        if f == ("glob", "ext:builtins.tuple") and len(args) == 1 and not kwargs and self.type_of(args[0], path) is tuple:
+            return [("value", path, args[0])]
+        # bool(c) of a comparison / boolean term / a value that certainly is a bool is that term
+        if f == ("glob", "ext:builtins.bool") and len(args) == 1 and not kwargs and (args[0][0] in ("cmp", "boolop", "unop") or self.type_of(args[0], path) is bool):
+            return [("value", path, args[0])]
         # functools.partial(g, *a, **k)(*b, **l)  ==  g(*a, *b, **k, **l)
         if f[0] == "call" and f[1] == ("glob", "ext:functools.partial") and f[2] and f[2][0][0] != "star":
             return self.apply(f[2][0], tuple(f[2][1:]) + args, tuple(f[3]) + kwargs, path, node, awaited)
@@ -1101,10 +1110,131 @@ class Interp:
             return False
         return None
 
+    BUILTIN_TYPES = {"tuple": tuple, "list": list, "dict": dict, "set": set, "frozenset": frozenset, "str": str, "int": int, "float": float, "bool": bool, "bytes": bytes}
+
+    def type_of(self, v, path, _depth=0):
+        """the builtin type a term certainly has (tuple for *args, dict for **kwargs, displays, constructor calls,
+        constants, fields that are only ever assigned such values), else None"""
+        k = v[0]
+        if k in ("tuple", "list", "dict", "set"):
+            return self.BUILTIN_TYPES[k]
+        if k == "const" and v[1] is not None:
+            return type(v[1])
+        if k == "fstr":
+            return str
+        if k == "comp":
+            return {"list": list, "set": set, "dict": dict}.get(v[1])
+        if k == "call" and v[1][0] == "glob" and v[1][1].startswith("ext:builtins.") and v[1][1].split(".")[-1] in self.BUILTIN_TYPES:
+            return self.BUILTIN_TYPES[v[1][1].split(".")[-1]]
+        if k == "call" and _depth < 2:
+            cont, _elt = self._annotated_return(v, path)
+            if cont is not None:
+                return cont
+        fi = self._cur()
+        if k == "sym" and fi is not None:
+            a = fi.node.args
+            if a.vararg is not None and v[1] == a.vararg.arg and ("sym", v[1]) not in path.env:
+                return tuple
+            if a.kwarg is not None and v[1] == a.kwarg.arg and ("sym", v[1]) not in path.env:
+                return dict
+            # a parameter (of this or an enclosing function) annotated with a builtin type
+            f2 = fi
+            while f2 is not None:
+                for x in f2.node.args.posonlyargs + f2.node.args.args + f2.node.args.kwonlyargs:
+                    if x.arg == v[1] and x.annotation is not None and isinstance(x.annotation, ast.Name) and x.annotation.id in ("bool", "str", "int", "float", "bytes") and ("sym", v[1]) not in path.env:
+                        return self.BUILTIN_TYPES[x.annotation.id]
+                f2 = f2.parent
+        if k == "attr" and v[1] == ("sym", "self") and _depth < 2:
+            cur = fi
+            while cur is not None and cur.cls is None:
+                cur = cur.parent
+            if cur is not None:
+                stores = []
+                for q in cur.cls.mro:
+                    c = self.program.classes.get(q)
+                    if c is not None:
+                        stores.extend(c.fields.get(v[2], []))
+                kinds = set()
+                for st in stores:
+                    val = getattr(st, "value", None)
+                    owner = self.program.enclosing_function(cur.cls.module, st) if hasattr(self.program, "enclosing_function") else None
+                    t = None
+                    if isinstance(val, ast.Name) and owner is not None:
+                        oa = owner.node.args
+                        if oa.vararg is not None and val.id == oa.vararg.arg:
+                            t = tuple
+                        elif oa.kwarg is not None and val.id == oa.kwarg.arg:
+                            t = dict
+                    elif isinstance(val, ast.Tuple):
+                        t = tuple
+                    elif isinstance(val, ast.List):
+                        t = list
+                    elif isinstance(val, ast.Dict):
+                        t = dict
+                    elif isinstance(val, ast.Call) and dotted(val.func) in self.BUILTIN_TYPES:
+                        t = self.BUILTIN_TYPES[dotted(val.func)]
+                    kinds.add(t)
+                if stores and len(kinds) == 1 and None not in kinds:
+                    return kinds.pop()
+        return None
+
+    TYPING_CONTAINERS = {"Set": set, "List": list, "Tuple": tuple, "Dict": dict, "FrozenSet": frozenset, "set": set, "list": list, "tuple": tuple, "dict": dict, "frozenset": frozenset}
+
+    def _annotated_return(self, callterm, path):
+        """(container builtin type or None, element class qual or None) from the return annotation of the package
+        function a call term resolves to (annotations are trusted type facts)"""
+        if callterm[0] != "call":
+            return None, None
+        fi = self.resolve_callee(callterm[1], path)
+        if fi is None and callterm[1][0] == "attr" and callterm[1][1][0] == "glob" and callterm[1][1][1] in self.program.classes:
+            fi = self.program.lookup_method(self.program.classes[callterm[1][1][1]], callterm[1][2])
+        if fi is None or fi.node.returns is None:
+            return None, None
+        ann = fi.node.returns
+        if isinstance(ann, ast.Constant) and isinstance(ann.value, str):
+            try:
+                ann = ast.parse(ann.value, mode="eval").body
+            except SyntaxError:
+                return None, None
+        if isinstance(ann, ast.Subscript):
+            head = (dotted(ann.value) or "").split(".")[-1]
+            cont = self.TYPING_CONTAINERS.get(head)
+            elt = ann.slice
+            if isinstance(elt, ast.Tuple) and elt.elts:
+                elt = elt.elts[0]
+            q = self.program.resolve(fi.module, elt) if isinstance(elt, (ast.Name, ast.Attribute)) else None
+            return cont, (q if q in self.program.classes else None)
+        q = self.program.resolve(fi.module, ann) if isinstance(ann, (ast.Name, ast.Attribute)) else None
+        if q in self.program.classes:
+            return None, None
+        return self.TYPING_CONTAINERS.get((dotted(ann) or "").split(".")[-1]) if isinstance(ann, (ast.Name, ast.Attribute)) else None, None
+
+    def class_of_value(self, v, path):
+        """the package class an element certainly is an instance of: an item of a call annotated Set[C] / List[C] / ..."""
+        if v[0] == "item":
+            _cont, elt = self._annotated_return(v[1], path)
+            return elt
+        return None
+
     def truth(self, v, path) -> Optional[bool]:
         k = v[0]
         if k == "const":
             return bool(v[1])
+        # isinstance(x, C) for an element whose class is known from an annotation
+        if k == "call" and v[1] == ("glob", "ext:builtins.isinstance") and len(v[2]) == 2 and v[2][1][0] == "glob" and v[2][1][1] in self.program.classes:
+            q = self.class_of_value(v[2][0], path)
+            if q is not None:
+                return v[2][1][1] in self.program.classes[q].mro
+        # bool(x) is the truth of x
+        if k == "call" and v[1] == ("glob", "ext:builtins.bool") and len(v[2]) == 1 and not v[3]:
+            return self.truth(v[2][0], path)
+        # isinstance(x, T) for a value whose builtin type is certain
+        if k == "call" and v[1] == ("glob", "ext:builtins.isinstance") and len(v[2]) == 2 and not is_exc(v[2][0]):
+            ty = self.type_of(v[2][0], path)
+            c = v[2][1]
+            names = [c] if c[0] != "tuple" else list(c[1])
+            if ty is not None and all(n[0] == "glob" and n[1].startswith("ext:builtins.") and n[1].split(".")[-1] in self.BUILTIN_TYPES for n in names):
+                return any(issubclass(ty, self.BUILTIN_TYPES[n[1].split(".")[-1]]) for n in names)
         if k == "abs":
             return v[1] == "truthy"
         if k in ("exc", "lambda", "glob", "inst"):
